@@ -232,12 +232,22 @@ class RunStateBinding(Binding):
     def assert_may_fail(self, a, f):
         return False  # the engine's asserts are `x is not None` sanity checks outside the domain
 
+    def _fn_text(self, call, f) -> str:
+        """Text of the called function with a receiver that is a single-assignment local replaced by its definition
+        (`hwl = self.uod.hwl; hwl.write_batch(..)` -> `self.uod.hwl.write_batch`): classification by role, not by local name."""
+        fx = call.func
+        if isinstance(fx, ast.Attribute) and isinstance(fx.value, ast.Name) and f is not None:
+            d = local_single_defs(f).get(fx.value.id)
+            if d is not None and isinstance(d, (ast.Attribute, ast.Name)):
+                return f"{norm(d)}.{fx.attr}"
+        return norm(fx)
+
     def may_raise(self, call, f):
         if not self.faults:
             return False
         k = ("n", id(call))
         if k not in self._memo:
-            self._memo[k] = (call_attr(call), norm(call.func))
+            self._memo[k] = (call_attr(call), self._fn_text(call, f))
         t = self._memo[k][1]
         return t.endswith(("interpreter.tick", "_command_manager.tick", "hwl.read_batch", "hwl.write_batch"))
 
@@ -290,7 +300,7 @@ class RunStateBinding(Binding):
     def _call_effect(self, call, f, state):
         k = ("n", id(call))
         if k not in self._memo:
-            self._memo[k] = (call_attr(call), norm(call.func))
+            self._memo[k] = (call_attr(call), self._fn_text(call, f))
         name, fn = self._memo[k]
         if not (name in ("_stop_interpreter", "_apply_safe_state", "_apply_state", "cancel_all_commands")
                 or (name or "").startswith("emit_on_") or fn.endswith(("hwl.write_batch", "interpreter.tick", "_command_manager.tick"))):
